@@ -4,9 +4,9 @@ from props import ModuleCheck, T
 REC_CLAUSES = ["C19_Fresh", "C19_Immutable", "C19_ImmutableRest", "C19_Unique", "Rejected_NoEffect"]
 
 REC_RND = T([dict(n=8, len=30, procs=6, cfg="users=2"),
-             dict(n=1, len=130, procs=2, cfg="users=3,maxmsgs=10,maxtx=3,winfirst=30,winmod=25")],
+             dict(n=1, len=320, procs=2, cfg="users=3,maxmsgs=10,maxtx=3,winfirst=30,winmod=25")],
             [dict(n=60, len=40, procs=8, cfg="users=2"),
-             dict(n=2, len=400, procs=6, cfg="users=3,maxmsgs=10,maxtx=3,winfirst=30,winmod=50")])
+             dict(n=2, len=800, procs=6, cfg="users=3,maxmsgs=10,maxtx=3,winfirst=30,winmod=50")])
 REC_GEN = T([dict(cfg="GEN_Record.cfg", num=12, depth=12, seeds=6)],
             [dict(cfg="GEN_Record.cfg", num=80, depth=16, seeds=12)])
 REC_MC = T([dict(cfg="MC_Record.cfg", timeout=900)], [dict(cfg="MC_Record_big.cfg", timeout=3400)])
